@@ -41,6 +41,8 @@ def gen_case(rng, n_ev_files=None):
             if not mbr:
                 psms.append((raw, scan, mod))
         f_ = {"header_case": rng.choice(["as_is", "lower", "upper"]), "rows": rows}
+        if rng.random() < 0.2:
+            f_["msms_layout"] = True        # an msms.txt-style file: the scan column is called "Scan number"
         if rng.random() < 0.3:
             # another column layout (a different MaxQuant version): the tool warns and goes on; score and PEP are located per file
             perm = list(range(len(EV_COLS)))
@@ -76,7 +78,8 @@ def write_inputs(case, d):
         with open(p, "w", newline="") as fh:
             w = csv.writer(fh, delimiter="\t")
             perm = f.get("perm") or list(range(len(EV_COLS)))
-            w.writerow([_case(EV_COLS[k], f["header_case"]) for k in perm])
+            names = ["Scan number" if (c == "MS/MS scan number" and f.get("msms_layout")) else c for c in EV_COLS]
+            w.writerow([_case(names[k], f["header_case"]) for k in perm])
             for r in f["rows"]:
                 w.writerow([r[k] for k in perm])
         evs.append(p)
